@@ -620,10 +620,10 @@ Proof. intros H. unfold getop, updop. cbn [ops set]. rewrite nth_upd. destruct (
 Lemma getop_updop_eq o f s : getop (updop o f s) o = option_map f (getop s o).
 Proof. unfold getop, updop. cbn [ops set]. rewrite nth_upd. now rewrite Nat.eqb_refl. Qed.
 
-Lemma Lin_op s : Lin s -> NoDup (map o_mid (ops s)) -> fix9 (fx s) = true -> fix15 (fx s) = true -> fix16 (fx s) = true ->
+Lemma Lin_op s : Lin s -> NoDup (map o_mid (ops s)) -> fix9 (fx s) = true -> fix15 (fx s) = true -> fix16 (fx s) = true -> fix31 (fx s) = true ->
   is_running (step s DrvOp) = true -> Lin (step s DrvOp).
 Proof.
-  intros L Hnd F9 F15 F16. unfold step. destruct (is_running s) eqn:Hr; cbn [negb]; [|intros; exact L]. destruct (opq s) as [|o q] eqn:Eq; [intros; exact L|].
+  intros L Hnd F9 F15 F16 F31. unfold step. rewrite F31. destruct (is_running s) eqn:Hr; cbn [negb]; [|intros; exact L]. destruct (opq s) as [|o q] eqn:Eq; [intros; exact L|].
   assert (Ho : In o (opq s)) by (rewrite Eq; now left).
   destruct (l_q s L o Ho) as (c & Hc & R & Nr & Ns & It & Qs & Wq). rewrite Hc, F9, F15, F16. cbn [andb].
   assert (Ur : forall o', ~ In (o_mid c, o') (rmap s)).
@@ -650,14 +650,14 @@ Proof.
         -- intros ->. left. now left.
     + destruct (soft_drop c) as (e1 & e2 & e3 & e4 & e5 & e6).
       eapply (Lin_pop s _ o q c (drop_reply c)); try eassumption; try reflexivity.
-      * intros o' Hne. apply Gid. rewrite getop_updop_ne by assumption. reflexivity.
-      * rewrite getop_updop_eq. match goal with |- option_map _ ?x = _ => change x with (getop s o) end. now rewrite Hc.
+      * intros o' Hne. apply Gid. match goal with |- getop (set inuse _ ?x) _ = _ => change (getop x o' = getop s o') end. rewrite getop_updop_ne by assumption. reflexivity.
+      * match goal with |- getop (set inuse _ ?x) _ = _ => change (getop x o = Some (drop_reply c)) end. rewrite getop_updop_eq. match goal with |- option_map _ ?x = _ => change x with (getop s o) end. now rewrite Hc.
       * intros k o' H. now left.
       * intros k o' H. now left.
-      * intros i H. exact H.
+      * intros i. cbn [inuse set updop]. rewrite In_rem. tauto.
       * intros k H. now elim (Nr k).
       * intros k H. now elim (Ns k).
-      * intros i o' Hi. split; [tauto|]. split; [tauto|]. intros ->. right. right. destruct (Wq eq_refl) as [H|H]; [assumption|]. now elim H.
+      * intros i o'. cbn [inuse rmap smap set updop]. rewrite In_rem. intros [Hi1 Hi2]. split; [tauto|]. split; [tauto|]. intros ->. now elim Hi1.
   - (* KSearch *) intros _. unfold drop_entry. cbn [smap set]. rewrite Nks.
     destruct (fill_reply_core None c) as (f1 & f2 & f3 & f4 & f5).
     destruct (waiting c) eqn:Ew; cbn [negb].
@@ -677,12 +677,12 @@ Proof.
       * cbn [getop ops set]. change (getop (updop o close_chan (updop o (fill_reply None) s)) o = Some (close_chan (fill_reply None c))). rewrite !getop_updop_eq, Hc. reflexivity.
       * intros k o' H. now left.
       * intros k o'. cbn [smap set updop]. rewrite In_arem. intros [H1 H]. apply In_ainsert in H as [H|H]; [injection H; intros; contradiction|now left].
-      * intros i H. exact H.
+      * intros i. cbn [inuse set updop]. rewrite In_rem. tauto.
       * intros k H. now elim (Nr k).
       * intros k. cbn [smap set updop]. rewrite In_arem. intros [H1 H]. apply In_ainsert in H as [H|H]; [injection H; intros; contradiction|now elim (Ns k)].
-      * intros i o' Hi. cbn [rmap smap set updop]. split; [tauto|]. split.
+      * intros i o'. cbn [inuse rmap smap set updop]. rewrite In_rem. intros [Hi1 Hi2]. split; [tauto|]. split.
         -- intros H. apply In_arem. assert (i <> o_mid c) by (intros ->; exact (Us _ H)). split; [assumption|]. now apply In_ainsert_keep.
-        -- intros ->. right. right. destruct (Wq eq_refl) as [H|H]; [assumption|]. now elim H.
+        -- intros ->. now elim Hi1.
   - (* KAbandon *) intros _. rename target into t.
     set (s0 := s <| opq := q |> <| wout ::= fun w => w ++ [(o_mid c, KAbandon t)] |>).
     destruct (abandon_hit s0 t) eqn:Eh.
@@ -969,7 +969,8 @@ Proof.
     + intros o' c' Hin Hg IS. change (In o' (opq s ++ [o])) in Hin. rewrite G in Hg. destruct (Nat.eqb_spec o' o) as [->|Hne].
       * injection Hg as <-. unfold is_search in IS. cbn in IS. cbn. destruct (o_kind c); try contradiction; reflexivity.
       * apply in_app_or in Hin as [Hin|[E|[]]]; [|now elim Hne]. exact (C2 o' c' Hin Hg IS).
-  - match goal with |- Chan (updop _ ?g0 _) => set (g := g0) end.
+  - match goal with |- Chan (set inuse _ ?x) => apply (Chan_same x); [|reflexivity..] end.
+    match goal with |- Chan (updop _ ?g0 _) => set (g := g0) end.
     pose proof (G_updop s o c g Hc) as G.
     split.
     + intros k0 o' c' Hin Hg. change (In (k0, o') (smap s)) in Hin. rewrite G in Hg. destruct (Nat.eqb_spec o' o) as [->|Hne]; [now elim (Ns k0)|]. exact (C1 k0 o' c' Hin Hg).
